@@ -7,6 +7,13 @@ INT_TYPES = {"u8": (0, 255), "i8": (-128, 127), "u16": (0, 65535), "i16": (-3276
 for n in list(range(1, 17)) + [24, 31]:
     INT_TYPES["p%d" % n] = (0, 2**n - 1)
 
+SCOPED = {"s8": (16, 235), "s16": (1000, 60000), "si16": (-100, 1000), "su32": (7, 4000000000)}
+# wide unsigned ranges: divisors d of max, used to build operand pairs whose product is an exact multiple of max
+# (where truncating floating point evaluation of a*b/max goes wrong)
+DIVISORS = {"u32": [3, 5, 17, 257, 65537, 65535, 255, 4369], "i32": [3, 5, 17, 257, 65537, 65535, 255, 4369],
+            "p24": [3, 5, 7, 9, 13, 17, 241, 4095, 4097, 65535 // 15], "p16": [3, 5, 17, 257, 255], "p12": [3, 5, 7, 9, 13, 63, 65],
+            "p10": [3, 11, 31, 33, 93], "p9": [7, 73], "p14": [3, 43, 127, 129], "p15": [7, 31, 151, 217], "p11": [23, 89], "p13": [1], "p31": [1]}
+
 def f32bits(x): return struct.unpack("<I", struct.pack("<f", x))[0]
 
 def gen_ops(ctx):
@@ -36,6 +43,18 @@ def gen_ops(ctx):
                 n = 256; step = max(1, (size - 1) // n); b0 = lo + r.below(step)
                 while b0 + (n - 1) * step > hi: n -= 1
                 ops.append("mulrc %s %d %d %d %d" % (t, a, b0, n, step))
+            for d in DIVISORS.get(t, []):            # exact-multiple stratum: a multiple of d, b multiples of max/d
+                M = size - 1
+                if M % d: continue
+                q = M // d
+                for _ in range(6 if th else 2):
+                    i = r.range(1, q - 1) if q > 2 else 1
+                    n = min(200, d + 1)
+                    j0 = r.range(0, d + 1 - n)
+                    ops.append("mulrc %s %d %d %d %d" % (t, lo + d * i, lo + q * j0, n, q))
+                    i2 = r.range(1, d - 1) if d > 2 else 1
+                    n2 = min(200, q + 1); j2 = r.range(0, q + 1 - n2)
+                    ops.append("mulrc %s %d %d %d %d" % (t, lo + q * i2, lo + d * j2, n2, d))
             ops.append("inv %s %d 4096 1" % (t, lo)); ops.append("inv %s %d 4096 1" % (t, hi - 4095))
             for _ in range(64 if th else 8):
                 n = 1024; step = max(1, (size - 1) // n); x0 = lo + r.below(step)
@@ -43,6 +62,15 @@ def gen_ops(ctx):
                 ops.append("inv %s %d %d %d" % (t, x0, n, step))
     if th:
         ops += ["mulall u16", "mulall i16"]      # all 2^32 pairs, Spec re-implemented in the harness (see main.cpp)
+    for t, (lo, hi) in SCOPED.items():          # scoped channels: invert only
+        size = hi - lo + 1
+        if size <= 65536: ops.append("inv %s %d %d 1" % (t, lo, size))
+        else:
+            ops.append("inv %s %d 4096 1" % (t, lo)); ops.append("inv %s %d 4096 1" % (t, hi - 4095))
+            for _ in range(8):
+                n = 1024; step = max(1, (size - 1) // n); x0 = lo + r.below(step)
+                while x0 + (n - 1) * step > hi: n -= 1
+                ops.append("inv %s %d %d %d" % (t, x0, n, step))
     # float32 channels: boundary values and random values of [0,1]
     one = f32bits(1.0)
     fb = [0, 1, 2, 0x00800000, 0x007fffff, f32bits(0.5), f32bits(0.25), one - 1, one - 2, one, f32bits(1 / 3), f32bits(1 / 255), f32bits(254 / 255.0)]
